@@ -50,6 +50,19 @@ int main(void) {
   rep_build(&ref.f6, KIND, A, B, RR);
   int noff = KIND == 0 ? 1 : rep_n; if (KIND == 0) { rep_ex[0] = rep_ey[0] = 0; }
   Cache cache = {0};
+#if PRE
+  /* any order of cached queries: the child's bounding box is already in the cache (as after an unrotated sibling reference
+     or an earlier Cell::bounding_box on a shared cache). The cache state is built directly: capacity 8, one entry for "B". */
+  { typedef ARGT__ZNK5gdstk4Cell12bounding_boxERNS_3MapINS_12GeometryInfoEEE_2 CacheT;
+    struct S_struct_gdstk__MapItem* it = calloc(8, sizeof(struct S_struct_gdstk__MapItem));
+    uint64_t h = 0xcbf29ce484222325ULL; h ^= (uint64_t)'B'; h *= 0x100000001b3ULL;
+    uint8_t* key = malloc(2); key[0] = 'B'; key[1] = 0;
+    OI blx = 10000, bhx = -10000, bly = 10000, bhy = -10000;
+    for (int i = 0; i <= NV; i++) { if (vx[i] < blx) blx = vx[i]; if (vx[i] > bhx) bhx = vx[i]; if (vy[i] < bly) bly = vy[i]; if (vy[i] > bhy) bhy = vy[i]; }
+    struct S_struct_gdstk__MapItem* e = &it[h % 8]; e->f0 = key;
+    VX(e->f1.f1) = NUM_OF_INT(blx); VY(e->f1.f1) = NUM_OF_INT(bly); VX(e->f1.f2) = NUM_OF_INT(bhx); VY(e->f1.f2) = NUM_OF_INT(bhy); e->f1.f3 = 0; e->f1.f4 = 1;
+    cache.f0 = 8; cache.f1 = 1; cache.f2 = it; }
+#endif
   V2 mn = {0}, mx = {0};
   _ZNK5gdstk9Reference12bounding_boxERNS_4Vec2ES2_RNS_3MapINS_12GeometryInfoEEE(&ref, &mn, &mx, &cache);
   OI lox = 10000, hix = -10000, loy = 10000, hiy = -10000; OI r = REFL ? -1 : 1;
